@@ -6,6 +6,18 @@
 //   lsegp c|s <seq> <hex> [@off]  the same packet serialized and re-parsed first (as a sniffer delivers it)
 //   lbare c|s <seq>               IP / TCP(seq, ACK) without payload layer
 // result: "r=<data callback calls> end=<end callback calls> c=<seq>/<plen>/<fnv>/<frags> s=<seq>/<plen>/<fnv>/<frags>"
+//
+// session table (any number of interleaved connections; addresses are the raw `ip_addr_` values):
+//   minit                                                     fresh follower
+//   mconn <i> <ca> <sa> <cp> <sp> <cisn> <sisn> <chex> <shex>  declaration for the spec oracle only ("decl")
+//   mpkt  <src> <dst> <sport> <dport> <flags> <seq> <ack> <hex|-|~> [@off]
+//                                                             IP(src,dst) / TCP(sport,dport,flags,seq,ack) [/ RawPDU(hex)];
+//                                                             "-" = RawPDU with empty payload, "~" = no payload layer
+//   mpktp ...                                                 the same packet serialized and re-parsed first
+// result: "ev=<functor trace> sess=<session table in std::map order>"
+//   functor trace: D<id>/<clen>.<cfnv>/<slen>.<sfnv> (data functor) and E<id>/... (end functor) in call order, "," separated;
+//                  the payload sizes / hashes are those of the TCPStream& the functor is handed, at the time of the call
+//   session: <key ca.sa.cp.sp>|<id>|<info_ ca.sa.cp.sp>|<syn_ack_sent_><fin_sent_>|<client dir>|<server dir>, ";" separated
 #include "common.h"
 #include "c06_show.h"
 #include <tins/tcp_stream.h>
@@ -19,6 +31,7 @@ using namespace vh;
 struct Ctx {
     std::unique_ptr<TCPStreamFollower> fol;
     int data_calls = 0, end_calls = 0;
+    std::vector<std::string> trace;
 };
 
 static std::string frags(const std::map<uint32_t, RawPDU*>& m) {
@@ -42,10 +55,49 @@ static std::string show(Ctx& c) {
     return o.str();
 }
 
+static std::string show_info(const TCPStream::StreamInfo& i) {
+    std::ostringstream o;
+    o << i.client_addr.ip_addr_ << "." << i.server_addr.ip_addr_ << "." << i.client_port << "." << i.server_port;
+    return o.str();
+}
+
+static std::string show_dir(uint32_t seq, const TCPStream::payload_type& pl, const std::map<uint32_t, RawPDU*>& fr) {
+    std::ostringstream o;
+    o << seq << "/" << pl.size() << "/" << fnv(pl) << "/" << frags(fr);
+    return o.str();
+}
+
+static std::string show_event(char kind, const TCPStream& st) {
+    std::ostringstream o;
+    o << kind << st.id() << "/" << st.client_payload().size() << "." << fnv(st.client_payload())
+      << "/" << st.server_payload().size() << "." << fnv(st.server_payload());
+    return o.str();
+}
+
+static std::string show_table(Ctx& c) {
+    std::ostringstream o;
+    o << "ev=";
+    if (c.trace.empty()) o << "-";
+    for (size_t i = 0; i < c.trace.size(); ++i) o << (i ? "," : "") << c.trace[i];
+    o << " sess=";
+    if (c.fol->sessions_.empty()) o << "-";
+    bool first = true;
+    for (auto& kv : c.fol->sessions_) {
+        if (!first) o << ";";
+        first = false;
+        const TCPStream& st = kv.second;
+        o << show_info(kv.first) << "|" << st.id() << "|" << show_info(st.stream_info()) << "|"
+          << (st.syn_ack_sent_ ? 1 : 0) << (st.is_finished() ? 1 : 0) << "|"
+          << show_dir(st.client_seq_, st.client_payload(), st.client_frags_) << "|"
+          << show_dir(st.server_seq_, st.server_payload(), st.server_frags_);
+    }
+    return o.str();
+}
+
 static void feed(Ctx& c, IP& ip, bool reparse) {
     Ctx* p = &c;
-    auto data_fun = [p](TCPStream&) { p->data_calls++; };
-    auto end_fun = [p](TCPStream&) { p->end_calls++; };
+    auto data_fun = [p](TCPStream& st) { p->data_calls++; p->trace.push_back(show_event('D', st)); };
+    auto end_fun = [p](TCPStream& st) { p->end_calls++; p->trace.push_back(show_event('E', st)); };
     if (reparse) {
         std::vector<uint8_t> wire = ip.serialize();
         std::vector<IP> v(1, IP(wire.data(), uint32_t(wire.size())));
@@ -69,7 +121,27 @@ int main() {
     c.fol.reset(new TCPStreamFollower());
     return line_loop([&](const std::string& line) -> std::string {
         auto w = words(line);
-        c.data_calls = 0; c.end_calls = 0;
+        c.data_calls = 0; c.end_calls = 0; c.trace.clear();
+        if (!w.empty() && w[0] == "minit") {
+            c.fol.reset(new TCPStreamFollower());
+            return show_table(c);
+        }
+        if (!w.empty() && w[0] == "mconn") return "decl";
+        if (w.size() >= 9 && (w[0] == "mpkt" || w[0] == "mpktp")) {
+            IPv4Address src, dst;     // the op carries the stored member itself (what operator< / operator== compare)
+            src.ip_addr_ = uint32_t(std::stoull(w[1])); dst.ip_addr_ = uint32_t(std::stoull(w[2]));
+            IP ip = IP(dst, src) / TCP(uint16_t(std::stoul(w[4])), uint16_t(std::stoul(w[3])));
+            TCP& tcp = ip.rfind_pdu<TCP>();
+            tcp.flags(small_uint<12>(uint16_t(std::stoul(w[5]) & 0xfff)));
+            tcp.seq(uint32_t(std::stoull(w[6]))); tcp.ack_seq(uint32_t(std::stoull(w[7])));
+            if (w[8] != "~") {
+                bytes d;
+                if (!parse_hex(w[8], d)) return "bad-op";
+                tcp.inner_pdu(RawPDU(d.begin(), d.end()));
+            }
+            feed(c, ip, w[0] == "mpktp");
+            return show_table(c);
+        }
         if (w.size() >= 3 && w[0] == "linit") {
             c.fol.reset(new TCPStreamFollower());
             uint32_t cisn = uint32_t(std::stoull(w[1])), sisn = uint32_t(std::stoull(w[2]));
